@@ -338,6 +338,7 @@ def S4(inp, chunks, event, lose=False, observer=False):
         # a disconnect noticed right after the last chunk leaves nextIndex where it was: the transfer is simply repeated
         # (after a re-election the leader's log also holds its new no-op at 7)
         cl['leader_next_index_after_snapshot'] = Or(And(nx >= 6, nx <= (8 if event == 'interim' else 7)), And(event == 'disconnect', Eq(nx, 2)))
+    cl['snapshot_messages_say_where_the_snapshot_ends'] = all(m.get('snapshot_last') is not None and bool(And(Eq(m['snapshot_last'][0], 5), Eq(m['snapshot_last'][1], 1))) for nd, m in tr.sent if m.get('serialized') is not None)
     acks = [m for nd, m in ftr.sent if m['type'] == 'next_node_idx' and m['success'] is True]
     cl['success_ack_only_after_install'] = (len(acks) >= 1 and bool(Eq(acks[0]['next_node_idx'], 6))) if installed else len(acks) == 0
     return Res(cl, nontrivial=len(installed) == 1, obs=lambda: dict(event=event, after=k, sent=len(tr.sent), installed=[repr(x)[:120] for x in installed], exc=show(exc)))
@@ -560,7 +561,20 @@ def RI(inp, n):
     inp.assume(And(cov_idx > p.applied, Not(Or(d <= p.commit, so.has_entry(p.log, d, dt1))), not corrupt) if inp.flag('with_callback') else True)
     wc[cov_idx].append((inp.int('cb_term', 0, 5), rec_cov))
     wc[d + 1].append((mterm, rec_above))
-    msg = {'type': 'append_entries', 'term': mterm, 'commit_index': mci, 'serialized': (Blob(), False, True)}
+    msg = {'type': 'append_entries', 'term': mterm, 'commit_index': mci, 'serialized': (Blob(), False, True), 'snapshot_last': (d, dt1)}
+    if inp.flag('leader_without_position'):
+        del msg['snapshot_last']                 # a leader running older code: the follower has to read the snapshot to know
+    side_effects = inp.flag('deserializer_restores_state')
+    if side_effects:
+        # a user-supplied deserializer restores the object while it reads the file: reading a snapshot that will not be installed
+        # must not happen when the leader said where it ends
+        real_des = ser.deserialize
+
+        def des(incoming=False):
+            o.x = xs
+            return real_des(incoming)
+        ser.deserialize = des
+        inp.assume('snapshot_last' in msg and not corrupt)          # (what a user deserializer does with an unreadable file is its own business)
     _, exc = guard(getattr(o, so.P + 'onMessageReceived'), Node('b'), msg)
     q = so.post_state(o)
     acks = [m for nd, m in tr.sent if m['type'] == 'next_node_idx' and m['success'] is True]
@@ -574,7 +588,9 @@ def RI(inp, n):
     if started and corrupt:
         # a snapshot that cannot be loaded installs nothing and verifies nothing: no acknowledgement, no commit advance (C02/C04)
         cl['undecodable_snapshot_changes_nothing'] = And(so.logs_equal(p.log, q.log) if len(p.log) == len(q.log) else False, Eq(q.applied, p.applied), Eq(q.commit, p.commit), Eq(o.x, -1))
-        cl['undecodable_snapshot_not_acknowledged'] = len(acks) == 0
+        # (told where it ends, the follower does not even read a snapshot that ends inside its log: that one is answered like any stale one)
+        known_stale = And('snapshot_last' in msg, stale)
+        cl['undecodable_snapshot_not_acknowledged'] = Implies(Not(known_stale), len(acks) == 0)
     elif started:
         fresh = Not(stale)
         installed = And(len(q.log) == 2 and And(Eq(q.log[0][1], d - 1), Eq(q.log[1][1], d), Eq(q.log[0][2], dt0), Eq(q.log[1][2], dt1)), Eq(q.applied, d), Eq(o.x, xs))
